@@ -91,6 +91,16 @@ def main(argv):
                                          gen.hx(gen.rbytes(rng, rng.choice([0, 1, 7, 8, 15, 16, 17, 24, 64, 200]), False)))
                        for _k in range(rng.randint(1, 3)))
         lines.append("priv %d %s %s" % (alg, gen.rbytes(rng, 16, False).hex(), ops))
+    # long decrypt histories on one key object: many large ciphertexts between two requests (the cipher keeps a private buffer)
+    for _ in range(400 if thorough else 80):
+        alg = rng.choice([1, 2])
+        ops = []
+        for _k in range(rng.randint(3, 8)):
+            n = rng.choice([1000, 1400, 2000, 4000, 4080]) // 16 * 16
+            ops.append("d,%s,%d,%d,%s" % (gen.rbytes(rng, 8, False).hex(), rng.randrange(2 ** 31), rng.randrange(2 ** 31), gen.rbytes(rng, n, False).hex()))
+            if rng.random() < 0.2:
+                ops.append("e,0102,get:5:2b0601,1,2")
+        lines.append("priv %d %s %s" % (alg, gen.rbytes(rng, 16, False).hex(), "|".join(ops)))
     stats = {"OK": 0, "ERR": 0, "PANIC": 0, "other": 0}
 
     def on_case(k, ln, ml, rl, dl):
@@ -113,6 +123,10 @@ def main(argv):
     mm = vf.run_lines(v3exe, [" ".join(ln.split(" ")[:3] + ["0"] + ln.split(" ")[3:]) for ln in priv]) if ok3 else [None] * len(priv)
     for ln, ml, rl, dl in zip(priv, mm, r, d):
         on_case(0, ln, ml, rl, dl)
+        if "|e," in ln or " e," in ln:
+            # the salt of an encrypt is random: compare the decrypt outcomes only
+            strip = lambda x: " | ".join(("E" if y.startswith("E ") else y) for y in (x or "")[3:].split(" | "))
+            ml, rl, dl = "OK " + strip(ml), "OK " + strip(rl) if (rl or "").startswith("OK ") else rl, "OK " + strip(dl) if (dl or "").startswith("OK ") else dl
         for prof, o in (("release", rl), ("debug", dl)):
             if ml is not None and not codec.same(ml, o, cd.emap):
                 dis += 1
@@ -187,6 +201,40 @@ def main(argv):
                 elif exc not in allowed:
                     c.violation("%s %s on a %s session raised an undocumented exception %s" % (sc["mode"], st["op"], sc["version"], exc),
                                 {"scenario": dict(sc, steps=[st]), "outcome": out}, key="api-undocumented:" + exc)
+    # ---- many encrypted datagrams consumed by one receive call (own worker: if the process dies, that IS the violation)
+    hs = []
+    for cfgname, v3 in (("md5+des", {"user": "ud", "auth": ["md5", 2, "22" * 16], "priv": ["des", 2, "33" * 16]}),
+                        ("sha1+aes", {"user": "ue", "auth": ["sha1", 2, "44" * 20], "priv": ["aes", 2, "55" * 20]})):
+        good = {"vbs": ber.varbind(ber.enc_oid([1, 3, 6, 9]), ber.enc_value("int", 1)).hex()}
+        big = ber.varbind(ber.enc_oid([1, 3, 6, 1, 4, 1]), ber.enc_value("os", bytes(1350)))
+        steps = []
+        for rep in range(3):
+            strays = [{"vbs": big.hex(), "msgid": "same+1"} for _x in range(rng.choice([3, 4, 6]))]
+            steps.append({"op": "get", "args": ["1.3.6.9"], "replies": [strays + [good]]})
+            steps.append({"op": "get", "args": ["1.3.6.9"], "replies": [strays if rep == 0 else [good]]})   # only strays: times out
+            steps.append({"op": "get", "args": ["1.3.6.9"], "replies": [[good]]})
+        hs.append({"version": "v3", "mode": "sync", "timeout": 2.0, "steps": steps, "_cfg": cfgname,
+                   "v3": dict(v3, engine_id="80001f8880a1b2c3d4", agent_engine_id="80001f8880a1b2c3d4", boots=2, time=500)})
+    resh, logh = vf.run_api_worker("C01", {"scenarios": [{k: v for k, v in h.items() if not k.startswith("_")} for h in hs], "model_exe": v3exe})
+    if resh is None:
+        c.violation("the process died while a session consumed several large encrypted datagrams in one receive call: " + logh.strip()[-300:],
+                    {"scenarios": [{k: v for k, v in h.items() if not k.startswith("_")} for h in hs], "worker_log": logh[-1500:]}, key="process-aborted")
+    else:
+        for h, rec in zip(hs, resh["records"]):
+            if "driver_error" in rec:
+                c.errors.append("API driver error: " + rec["driver_error"])
+                continue
+            for k, (st, out) in enumerate(zip(h["steps"], rec["steps"])):
+                n_api += 1
+                c.count(("history", h["_cfg"], k), True)
+                got = out.get("value") or out.get("exc")
+                want = "TimeoutError" if k == 1 else "int:1"
+                if (out.get("exc") or "").startswith("PANIC"):
+                    c.violation("%s session: a Rust panic surfaced on call %d of a history with large encrypted strays" % (h["_cfg"], k),
+                                {"scenario": {kk: vv for kk, vv in h.items() if not kk.startswith("_")}, "call": k, "outcome": out}, key="api-panic:history")
+                elif got != want:
+                    c.violation("%s session: call %d of a history with large encrypted strays gave %s, expected %s" % (h["_cfg"], k, got, want),
+                                {"scenario": {kk: vv for kk, vv in h.items() if not kk.startswith("_")}, "call": k, "outcome": out}, key="api-history-outcome")
     c.assumptions += ["get_many may raise RuntimeError ('On Python runtime failure' in its docstring) when a varbind cannot be stored in the dict"]
     return c.finish(
         rule="exhaustive: all octet strings of length <= 2 for %s and <= 1 for the other decoders (%d cases incl. the corpus of the five "
